@@ -10,6 +10,7 @@ import Driver.Parser
 import Driver.Heap
 import Driver.Alias
 import Driver.Tools
+import Driver.Container
 /-
 Correspondence driver.  `.lake/build/bin/fsicdrv < requests > replies`  (or `lake env lean --run Main.lean`)
 Each request line is `<kind>\t<json>`; each reply is one line (`!<message>` on a malformed request).
@@ -29,7 +30,8 @@ def allHandlers : List (String × (Json → Except String String)) :=
   Drv.Parser.handlers ++
   Drv.Heap.handlers ++
   Drv.Alias.handlers ++
-  Drv.Tools.handlers
+  Drv.Tools.handlers ++
+  Drv.Container.handlers
 
 def dispatch (kind : String) (j : Json) : Except String String :=
   match allHandlers.lookup kind with
